@@ -103,6 +103,12 @@ def enumerate_lists(tier, rng):
             for operands in (('2', '3', '2'), ('0', '0', '1'), ('1', '0', '0'), ('7', '2', '3'), ('3', '2', '2')):
                 lists.append(build(tpl, ops, operands))
         lists.append(build(TEMPLATES[2][0], ops, ('7', '2', '3'), neg_at=rng.randrange(3)))
+    # every flat list `a o1 b o2 c o3 d` in which a tighter operator stands between two of one level: the outer pair still
+    # groups left to right (right to left for ^) round the inner result
+    level = {'or': 2, 'and': 3, '+': 5, '-': 5, '*': 6, '/': 6, '%': 6, '^': 7}
+    for o1, o2, o3 in itertools.product(OPS, repeat=3):
+        if level.get(o1, 4) == level.get(o3, 4) < level.get(o2, 4):
+            lists.append(build(TEMPLATES[3][0], (o1, o2, o3), ('7', '2', '3', '5')))
     triples = list(itertools.product(OPS, repeat=3))
     if tier != 'thorough':
         triples = rng.sample(triples, 500)
